@@ -99,7 +99,7 @@ func contentClass(s string) string {
 }
 
 func checkC17(c *Check) {
-	c.Rule = "model file system (path -> bytes) versus the real sandbox after the script: (1) single-store cells: 33 path spellings x literal/run-time path x contents (C08 payloads, every printable character, newline/tab, empty) x literal/run-time content x top level / inside a function x literal / computed append flag, each cell doing exists, write, read, append, overwrite, append; (2) nested operations: path, data or flag expressions that call functions performing writes/reads themselves; (3) histories of 1-12 write/append/read/exists operations over three paths (all histories up to length 2 or 3, random beyond); oracle = reference stdout plus a recursive snapshot of the sandbox (every path, every byte; a write that touches another path shows as a stray or missing file). Non-trivial = at least one write executed; distinct = SHA-256 of source + files"
+	c.Rule = "model file system (path -> bytes) versus the real sandbox after the script: (1) single-store cells: 33 path spellings x literal/run-time path x contents (C08 payloads, every printable character, newline/tab, empty) x literal/run-time content x top level / inside a function x literal / computed append flag, each cell doing exists, write, read, append, overwrite, append; (2) nested operations: path, data or flag expressions that call functions performing writes/reads themselves; (3) composite programs: random histories over three random path spellings and four random contents with every operation placed directly, in a branch, in a loop body or behind a function; (4) histories of 1-12 write/append/read/exists operations over three paths (all histories up to length 2 or 3, random beyond); oracle = reference stdout plus a recursive snapshot of the sandbox (every path, every byte; a write that touches another path shows as a stray or missing file). Non-trivial = at least one write executed; distinct = SHA-256 of source + files"
 	c.Assumptions = []string{"literal spellings of the characters \" $ ` \\ are not used (recorded under C08); such values arrive through read() from pre-created files", "Batch helpers not claimed"}
 	runProbes(c, bashProbeJudge)
 	nontrivial := func(r Result) bool { return r.Features["write"] > 0 }
@@ -317,6 +317,112 @@ func checkC17(c *Check) {
 		}
 		cases = append(cases, BashCase{Key: key, Prog: SingleFile(stmts), PreDirs: []string{"d"}, CheckFS: true, NonTrivial: nontrivial})
 	}
+	// composite programs: random histories over three random path spellings and four random contents, every
+	// operation placed at random directly, in a branch, in a loop body (one site, several executions) or
+	// behind a function
+	nComp := c.Pick(150, 4000)
+	for k := 0; k < nComp; k++ {
+		cases = append(cases, c17Composite(rand.New(rand.NewSource(c.Seed*17000029+int64(k))), k, nontrivial))
+	}
+	c.Extra["composite_programs"] = nComp
 	c.Extra["cases"] = len(cases)
 	runBashCases(c, cases)
+}
+
+func c17Composite(r *rand.Rand, k int, nontrivial func(Result) bool) BashCase {
+	x := &c17Ctx{pre: map[string]string{}}
+	dirs := []string{}
+	pool := []int{}
+	for i, pc := range c17PathClasses {
+		if pc[0] != "dot-slash" {
+			pool = append(pool, i)
+		}
+	}
+	r.Shuffle(len(pool), func(i, j int) { pool[i], pool[j] = pool[j], pool[i] })
+	desc := []string{}
+	for i := 0; i < 3; i++ {
+		pc := c17PathClasses[pool[i]]
+		rt := !literalSafe(pc[1]) || r.Intn(2) == 0
+		x.stmts = append(x.stmts, def(fmt.Sprintf("p%d", i), x.value(pc[1], rt)))
+		if j := strings.LastIndex(pc[1], "/"); j > 0 {
+			dirs = append(dirs, pc[1][:j])
+		}
+		desc = append(desc, pc[0])
+	}
+	alphabet := " !\"#$%&'()*+,-./:;<=>?@[\\]^_`{|}~abxXn019\t"
+	for i := 0; i < 4; i++ {
+		var v string
+		switch r.Intn(4) {
+		case 0:
+			v = []string{"hello", "", "a  b", "$(touch CANARY_C)", "\"q\" 'r'", "-n", "*", "l1\nl2", "back\\slash\\", " x ", "x", "-e a", "%s", "a\n\nb"}[r.Intn(14)]
+		default:
+			n := r.Intn(6)
+			b := make([]byte, n)
+			for j := range b {
+				b[j] = alphabet[r.Intn(len(alphabet))]
+			}
+			v = string(b)
+		}
+		rt := !literalSafe(v) || r.Intn(2) == 0
+		x.stmts = append(x.stmts, def(fmt.Sprintf("c%d", i), x.value(v, rt)))
+	}
+	stmts := append([]Stmt{}, x.stmts...)
+	stmts = append(stmts,
+		fn("put", []Param{{"p", TString}, {"s", TString}}, nil, Write{Path: vr("p"), Data: vr("s")}),
+		fn("app", []Param{{"p", TString}, {"s", TString}}, nil, Write{Path: vr("p"), Data: vr("s"), Append: bl(true)}),
+		fn("get", []Param{{"p", TString}}, []Type{TString}, ifs(Exists{vr("p")}, ret(Read{vr("p")})), ret(sl("<missing>"))),
+		fn("has", []Param{{"p", TString}}, []Type{TBool}, ret(Exists{vr("p")})),
+		def("yes", bl(true)),
+	)
+	guardedRead := func(p Expr) Stmt {
+		return If{Branches: []IfBranch{{Exists{p}, []Stmt{pr(sl("r"), framed(Read{p}))}}}, Else: []Stmt{pr(sl("r missing"))}, HasElse: true}
+	}
+	n := 4 + r.Intn(9)
+	for i := 0; i < n; i++ {
+		p := vr(fmt.Sprintf("p%d", r.Intn(3)))
+		cv := vr(fmt.Sprintf("c%d", r.Intn(4)))
+		var op []Stmt
+		viaFn := r.Intn(3) == 0
+		switch r.Intn(5) {
+		case 0:
+			if viaFn {
+				op = []Stmt{callS("put", p, cv)}
+			} else {
+				op = []Stmt{Write{Path: p, Data: cv}}
+			}
+		case 1:
+			if viaFn {
+				op = []Stmt{callS("app", p, cv)}
+			} else {
+				op = []Stmt{Write{Path: p, Data: cv, Append: vr("yes")}}
+			}
+		case 2:
+			op = []Stmt{Write{Path: p, Data: bin("+", cv, Itoa{il(int64(i))}), Append: cmp("==", il(int64(i%2)), il(0))}}
+		case 3:
+			if viaFn {
+				op = []Stmt{pr(sl("g"), framed(call("get", p)))}
+			} else {
+				op = []Stmt{guardedRead(p)}
+			}
+		case 4:
+			if viaFn {
+				op = []Stmt{pr(sl("h"), call("has", p))}
+			} else {
+				op = []Stmt{pr(sl("e"), Exists{p})}
+			}
+		}
+		switch r.Intn(5) {
+		case 0:
+			op = []Stmt{ifs(vr("yes"), op...)}
+		case 1:
+			op = loopForm([]int{0, 3}[r.Intn(2)], fmt.Sprintf("k%d", i), int64(2+r.Intn(2)), op)
+		case 2:
+			op = []Stmt{If{Branches: []IfBranch{{Not{vr("yes")}, []Stmt{pr(sl("never"))}}}, Else: op, HasElse: true}}
+		}
+		stmts = append(stmts, op...)
+	}
+	for i := 0; i < 3; i++ {
+		stmts = append(stmts, pr(sl("final"), framed(call("get", vr(fmt.Sprintf("p%d", i))))))
+	}
+	return BashCase{Key: fmt.Sprintf("composite/%d/%s", k, strings.Join(desc, "+")), Prog: SingleFile(stmts), PreFiles: x.pre, PreDirs: dirs, CheckFS: true, NonTrivial: nontrivial}
 }
